@@ -1660,3 +1660,67 @@ Proof.
   intro HW. unfold run_prog. pose proof (run_total b rows HW cs init_vst (init_ok b HW)) as H.
   destruct (run b rows cs init_vst); [discriminate|contradiction].
 Qed.
+
+(* ---------- the statements as Properties_C07.v quotes them (hypothesis buf_wf) ---------- *)
+Lemma flat_step b dir r o : buf_wf b -> dir = 1 \/ dir = -1 -> vpos b r o ->
+  exists r' o', lbuf_next b dir r o = (fst (fnext (nchars b) dir (idx b r o)), r', o') /\ vpos b r' o' /\
+                idx b r' o' = snd (fnext (nchars b) dir (idx b r o)).
+Proof. intros HW. apply next_sim, buf_wf_ne, HW. Qed.
+
+Lemma w_first_stop b big r o : buf_wf b -> vpos b r o ->
+  exists s r' o', lbuf_wordbeg (mfuel b) b big 1 r o = Some (s, r', o') /\ vpos b r' o' /\
+    fwd_step (w_stop (fchr b) big) (nchars b) (idx b r o) (idx b r' o') s.
+Proof. intros HW V. apply wordbeg_fwd_spec; [apply buf_wf_ne, HW|exact V]. Qed.
+
+Lemma e_first_stop b big r o : buf_wf b -> vpos b r o ->
+  exists s r' o', lbuf_wordend (mfuel b) b big 1 r o = Some (s, r', o') /\ vpos b r' o' /\
+    fwd_step (e_stop (fchr b) (nchars b) big) (nchars b) (idx b r o) (idx b r' o') s.
+Proof. intros HW V. apply wordend_fwd_spec; [apply buf_wf_ne, HW|exact V]. Qed.
+
+Lemma b_first_stop b big r o : buf_wf b -> vpos b r o ->
+  exists s r' o', lbuf_wordend (mfuel b) b big (-1) r o = Some (s, r', o') /\ vpos b r' o' /\
+    bwd_step (b_stop (fchr b) big) (idx b r o) (idx b r' o') s.
+Proof. intros HW V. apply wordend_bwd_spec; [apply buf_wf_ne, HW|exact V]. Qed.
+
+Lemma word_motion_count b rows top cl cc pc has cnt k row off : buf_wf b -> vpos b row off -> word_key k = true ->
+  exists r' o', vi_motion b rows top cl cc pc has cnt k row off = MvOk r' o' cl cc pc /\ vpos b r' o' /\
+                word_chain b k (Z.to_nat cnt) (idx b row off) (idx b r' o').
+Proof. intros HW. apply word_motion_spec, buf_wf_ne, HW. Qed.
+
+Lemma pair_match b r o : buf_wf b -> vpos b r o ->
+  match lbuf_pair (mfuel b) b r o with
+  | None => False
+  | Some None =>
+      (exists o1, o <= o1 /\ b0 (lchr b r o1) = 0%N /\ forall k, o <= k < o1 -> index_of (b0 (lchr b r k)) pairs 0 = None)
+      \/ (exists o1 c pidx, pair_first b r o o1 c pidx /\
+            forall t, (0 < t)%nat -> 0 <= idx b r o1 + pair_dir pidx * Z.of_nat t < nchars b ->
+                      1 <= pdepth (fchr b) c (pair_other pidx) (pair_dir pidx) (idx b r o1) t)
+  | Some (Some (r', o')) =>
+      exists o1 c pidx, pair_first b r o o1 c pidx /\ vpos b r' o' /\
+        exists m, (0 < m)%nat /\ idx b r' o' = idx b r o1 + pair_dir pidx * Z.of_nat m /\
+          b0 (lchr b r' o') = pair_other pidx /\
+          pdepth (fchr b) c (pair_other pidx) (pair_dir pidx) (idx b r o1) m = 0 /\
+          forall t, (0 < t < m)%nat -> 1 <= pdepth (fchr b) c (pair_other pidx) (pair_dir pidx) (idx b r o1) t
+  end.
+Proof. intros HW. apply pair_spec, buf_wf_ne, HW. Qed.
+
+(* the brackets are paired as ( ) [ ] { }: direction and partner *)
+Lemma pair_table : map (fun i => (nth i pairs 0%N, pair_dir i, pair_other i)) (seq 0 6) =
+  [(40%N, 1, 41%N); (41%N, -1, 40%N); (91%N, 1, 93%N); (93%N, -1, 91%N); (123%N, 1, 125%N); (125%N, -1, 123%N)].
+Proof. reflexivity. Qed.
+
+Example word_nonvacuous :
+  let b := buf_of_bytes [97; 98; 32; 32; 99; 46; 10; 32; 10; 10; 40; 120; 41; 10]%N in      (* "ab  c.\n \n\n(x)\n" *)
+  buf_wf b /\ vpos b 0 0 /\
+  lbuf_wordbeg (mfuel b) b false 1 0 0 = Some (false, 0, 4) /\ lbuf_wordend (mfuel b) b false 1 0 0 = Some (false, 0, 1) /\
+  lbuf_wordbeg (mfuel b) b false 1 0 5 = Some (false, 1, 1) /\ lbuf_wordend (mfuel b) b false (-1) 3 0 = Some (false, 2, 0) /\
+  lbuf_pair (mfuel b) b 3 0 = Some (Some (3, 2)) /\ lbuf_wordbeg (mfuel b) b true 1 3 1 = Some (true, 3, 3).
+Proof.
+  cbv zeta. split; [|split; [|vm_compute; repeat split; reflexivity]].
+  - repeat constructor.
+    + exists [[97]; [98]; [32]; [32]; [99]; [46]]%N. split; [reflexivity|]. repeat constructor; discriminate.
+    + exists [[32]]%N. split; [reflexivity|]. repeat constructor; discriminate.
+    + exists []. split; [reflexivity|]. constructor.
+    + exists [[40]; [120]; [41]]%N. split; [reflexivity|]. repeat constructor; discriminate.
+  - eexists. split; [reflexivity|]. vm_compute. split; [discriminate|reflexivity].
+Qed.
